@@ -5,8 +5,8 @@
    Proof/Fun2CoreProof.v (sharing lemmas). *)
 From Coq Require Import List ZArith NArith String Bool.
 From SCC Require Import Base.Sexp Lang.FunSyn Lang.CoreSyn Lang.AxSyn Lang.AxSize Lang.FsSize
-     Model.Fun2Core Model.Focus Model.Shrink Model.Linearize Model.Backend
-     Proof.Fun2CoreProof Proof.SizeLin Proof.SizeCodegen.
+     Model.Fun2Core Model.Focus Model.Shrink Model.SizeDefs Model.Linearize Model.Backend
+     Proof.Fun2CoreProof Proof.SizeLin Proof.SizeCodegen Proof.SizeShrink.
 Import ListNotations.
 Open Scope N_scope.
 
@@ -25,7 +25,8 @@ Definition fun2core_size_statement (c1 : N) : Prop :=
 Definition focus_size_statement (c2 : N) : Prop :=
   forall (p : cprog) (q : fsprog), focus_prog p = Backend.Ok q -> fs_wprog q <= c2 * size_cprog p.
 
-(* shrinking: linear in size x (1 + xtors) x (1 + width).  NOT proved as a whole. *)
+(* shrinking, the SHARP form: linear in size x (1 + xtors) x (1 + width).  NOT proved; what is proved
+   (C19_shrink_size below) is quadratic in the weighted size, with coefficients from the declarations. *)
 Definition shrink_size_statement (c3 : N) : Prop :=
   forall (p : fsprog) (q : prog), shrink_prog p = SOk q ->
     ax_size_prog q <= c3 * (1 + N.max (decl_xtors (fspdata p)) (decl_xtors (fspcodata p))) * fs_wprog p * (1 + ax_width_prog q).
@@ -125,3 +126,42 @@ Print Assumptions C19_codegen_size_exact.
 Theorem C19_cg_bound_poly : forall s n, cg_bound s n <= ax_size s * (5 + 2 * ax_maxw s n).
 Proof. exact cg_bound_poly. Qed.
 Print Assumptions C19_cg_bound_poly.
+
+(* ---------- (d) shrinking ---------- *)
+(* the sharing step: a critical pair at a declared type with >= 2 xtors whose expanded side is not a
+   leaf lifts that side ONCE; every clause of the eta-expansion gets a call of size 1 + |free variables|
+   <= 1 + 2 * weight; all clauses together: #xtors * (2 + 2 * max arity + size of that call) *)
+Theorem C19_shrink_critical_pair_shares : forall fuel E vp sp vc sc name xs st r st',
+  shrink_critical_pairs (shrink_stmt fuel E) E vp sp vc sc (CDecl name) st = SOk (r, st') ->
+  xtors_of E (CDecl name) name = SOk xs -> (2 <= List.length xs)%nat ->
+  let cod := is_codata (e_codata E) (CDecl name) in
+  let expand := if cod then sp else sc in
+  let keep := if cod then sc else sp in
+  let ve := if cod then vp else vc in
+  let vk := if cod then vc else vp in
+  is_leaf_statement expand = false ->
+  exists call st1 cls st2 next,
+    lift (shrink_stmt fuel E) E expand st = SOk (call, st1) /\
+    ax_size call = 1 + len (typed_free_vars expand) /\
+    len (typed_free_vars expand) <= 2 * fs_wstmt expand /\
+    critical_clauses (e_codata E) ve (shrink_ty (CDecl name)) call xs st1 = (cls, st2) /\
+    ax_size_cls cls <= len xs * (2 + 2 * env_A E + ax_size call) /\
+    shrink_stmt fuel E keep st2 = SOk (next, st') /\
+    r = Create vk (Decl name) None cls next.
+Proof. exact critical_pair_shares_lemma. Qed.
+Print Assumptions C19_shrink_critical_pair_shares.
+
+(* one statement, every fuel: the shrunk statement plus everything lifted while producing it *)
+Theorem C19_shrink_stmt_size : forall fuel E s st r st',
+  shrink_stmt fuel E s st = SOk (r, st') ->
+  ax_size r + ax_size_defs (s_lifted st') <=
+  ax_size_defs (s_lifted st) + fs_wstmt s * ((2 + env_X E * (2 + env_A E)) + 2 * (1 + env_X E) * fs_wstmt s).
+Proof. exact shrink_stmt_size. Qed.
+Print Assumptions C19_shrink_stmt_size.
+
+(* whole programs: quadratic in the weighted size of the focused program; X = largest number of xtors
+   of a type (the continuation type _Cont included), A = largest xtor arity *)
+Theorem C19_shrink_size : forall p q, shrink_prog p = SOk q ->
+  ax_size_prog q <= fs_wprog p * ((2 + prog_X p * (2 + prog_A p)) + 2 * (1 + prog_X p) * fs_wprog p).
+Proof. exact shrink_size_lemma. Qed.
+Print Assumptions C19_shrink_size.
